@@ -294,6 +294,19 @@ def r2_fresh(program, rep, B, folder):
         fresh = _fresh_from_helper(B)
     if not fresh:
         fresh = _fresh_from_search(program, B)
+    if not fresh and any(
+            st_[0] in ("call", "callv") and st_[1] == ("global", "next") and
+            st_[2] and any(x_[0] in ("call", "callv") and
+                           x_[1][0] in ("local", "attr") and
+                           x_[1] != ("attr", ("param", "self"), "seq")
+                           for x_ in subterms(st_[2][0]))
+            for st_ in subterms(B.KEY)):
+        # the key comes out of a generator made by a helper: whether that
+        # generator only hands out numbers that are not outstanding is not
+        # followed
+        raise AnalysisError("send_scp_burst: the sequence number is taken "
+                            "from a generator built by a helper; how it "
+                            "avoids outstanding numbers is not analysed")
     rep.check(fresh, "C06-R2", inst,
               "the key inserted has just been tested not to be in the table "
               "(the test dominates the insertion and neither the key nor the "
@@ -429,6 +442,10 @@ def r3_once(program, rep, B):
         if isinstance(n, ast.While):
             outer = n
     okl = False
+    if outer is not None and isinstance(outer.test, ast.Constant):
+        raise AnalysisError("send_scp_burst: the burst loop is 'while "
+                            "True' left by a test inside its body; where "
+                            "it is left is not read by this rule")
     if outer is not None:
         tt = T.term(outer.test, T.cfg.loop_head[id(outer)])
         okl = any(st_ == B.TABLE for st_ in subterms(tt)) and \
@@ -584,8 +601,14 @@ def r4_retry(program, rep, B):
     pe = plain(B.ENTRY)
     ARGS = None
     okt = False
-    if len(pe[2]) == 3:
-        cb, _, to = pe[2]
+    # (arguments by position or by the constructor's parameter names)
+    pa = list(pe[2])
+    if pe[3]:
+        names_ = formals(tp)[1:]        # TransmittedPacket.__init__
+        kw_ = dict(pe[3])
+        pa = pa + [kw_.get(nm_) for nm_ in names_[len(pa):]]
+    if len(pa) == 3 and None not in pa:
+        cb, _, to = pa
         if cb[0] == "attr" and cb[2] == "callback":
             ARGS = cb[1]
             okt = to in (("binop", "Add", ("attr", SELF, "default_timeout"),
